@@ -10,6 +10,7 @@ CONSTANTS
   NReq = %d
   Reuse = %s
   KF_NoRespawn = %s
+  Http = %s
   MaxClients = %d
   MaxRequeue = 2
 CONSTRAINT Bounded
@@ -17,6 +18,7 @@ INVARIANT C19_Bound
 INVARIANT C19_OwnResult
 INVARIANT C19_NoStranding
 INVARIANT C19_OneAtATime
+INVARIANT ConnsCounted
 CHECK_DEADLOCK FALSE
 """
 
@@ -27,6 +29,7 @@ CONSTANTS
   NReq = %d
   Reuse = %s
   KF_NoRespawn = %s
+  Http = %s
   MaxClients = 99
   MaxRequeue = 2
 INVARIANT C19_Bound
@@ -134,19 +137,21 @@ def run(tier):
     wd = workdir('C19')
     q = tier == 'quick'
     mc = []
-    for ps, nreq, reuse, kf in ((1, 3, 'FALSE', 'FALSE'), (2, 3, 'TRUE', 'FALSE'), (0, 3, 'TRUE', 'FALSE'), (3, 4, 'FALSE', 'FALSE')) + \
-            (((2, 4, 'TRUE', 'FALSE'),) if not q else ()):
-        mc.append({'name': 'RelayPool size=%d requests=%d reuse=%s' % (ps, nreq, reuse), 'module': 'RelayPool',
-                   'cfg': flow.write_cfg(wd, 'rp_%d_%d_%s.cfg' % (ps, nreq, reuse), RP_CFG % (ps, nreq, reuse, kf, 5 if q else 6))})
+    for ps, nreq, reuse, kf, http in ((1, 3, 'FALSE', 'FALSE', 'FALSE'), (2, 3, 'TRUE', 'FALSE', 'FALSE'), (0, 3, 'TRUE', 'FALSE', 'FALSE'),
+                                      (3, 4, 'FALSE', 'FALSE', 'FALSE'), (2, 3, 'TRUE', 'FALSE', 'TRUE'), (1, 3, 'FALSE', 'FALSE', 'TRUE')) + \
+            (((2, 4, 'TRUE', 'FALSE', 'FALSE'), (0, 4, 'TRUE', 'FALSE', 'TRUE')) if not q else ()):
+        mc.append({'name': 'RelayPool size=%d requests=%d reuse=%s%s' % (ps, nreq, reuse, ' (HTTP clients)' if http == 'TRUE' else ''), 'module': 'RelayPool',
+                   'cfg': flow.write_cfg(wd, 'rp_%d_%d_%s_%s.cfg' % (ps, nreq, reuse, http), RP_CFG % (ps, nreq, reuse, kf, http, 5 if q else 6))})
     # liveness: under weak fairness every attempt is eventually served (no state constraint: the downstream may time a waiting
     # connection out MaxRequeue times, everything else is finite by itself)
-    for ps, nreq, reuse in ((1, 3, 'TRUE'), (2, 3, 'TRUE'), (0, 3, 'FALSE')) + (((3, 4, 'TRUE'),) if not q else ()):
-        mc.append({'name': 'RelayPool liveness (every attempt eventually served) size=%d requests=%d reuse=%s' % (ps, nreq, reuse),
-                   'module': 'RelayPool', 'cfg': flow.write_cfg(wd, 'rpl_%d_%d_%s.cfg' % (ps, nreq, reuse), RPL_CFG % (ps, nreq, reuse, 'FALSE'))})
+    for ps, nreq, reuse, http in ((1, 3, 'TRUE', 'FALSE'), (2, 3, 'TRUE', 'FALSE'), (0, 3, 'FALSE', 'FALSE'), (1, 3, 'TRUE', 'TRUE'), (2, 3, 'FALSE', 'TRUE')) + \
+            (((3, 4, 'TRUE', 'FALSE'),) if not q else ()):
+        mc.append({'name': 'RelayPool liveness (every attempt eventually served) size=%d requests=%d reuse=%s%s' % (ps, nreq, reuse, ' (HTTP clients)' if http == 'TRUE' else ''),
+                   'module': 'RelayPool', 'cfg': flow.write_cfg(wd, 'rpl_%d_%d_%s_%s.cfg' % (ps, nreq, reuse, http), RPL_CFG % (ps, nreq, reuse, 'FALSE', http))})
     mc.append({'name': 'deviation KF_NoRespawn under fairness: TLC must find the attempt that is never served', 'module': 'RelayPool',
-               'cfg': flow.write_cfg(wd, 'rpl_kf.cfg', RPL_CFG % (1, 3, 'FALSE', 'TRUE')), 'expect_violation': ['temporal']})
+               'cfg': flow.write_cfg(wd, 'rpl_kf.cfg', RPL_CFG % (1, 3, 'FALSE', 'TRUE', 'FALSE')), 'expect_violation': ['temporal']})
     mc.append({'name': 'deviation KF_NoRespawn: TLC must find the stranded request', 'module': 'RelayPool',
-               'cfg': flow.write_cfg(wd, 'rp_kf.cfg', RP_CFG % (1, 3, 'FALSE', 'TRUE', 5)), 'expect_violation': ['C19_NoStranding']})
+               'cfg': flow.write_cfg(wd, 'rp_kf.cfg', RP_CFG % (1, 3, 'FALSE', 'TRUE', 'FALSE', 5)), 'expect_violation': ['C19_NoStranding']})
     # connection reuse at the level of one client: spec/RelayClient.tla with two messages on one connection
     import os
     from .. import behav
